@@ -21,6 +21,9 @@ use crate::{
 };
 use async_trait::async_trait;
 use bytes::Bytes;
+#[cfg(feature = "verif-hooks")]
+use crate::verif_hooks::sync::DashMap;
+#[cfg(not(feature = "verif-hooks"))]
 use dashmap::DashMap;
 use std::{
     sync::{
